@@ -36,9 +36,13 @@ func RenameMetas(c *Change, r *rand.Rand) (*Change, bool) {
 	mapping := map[string]string{}
 	for i, m := range d.Meta {
 		var nn string
+		pre := ""
+		if m.Name[0] == 'T' { // keep the generator's "type filler" convention
+			pre = "T"
+		}
 		for try := 0; try < 20; try++ {
 			nn = pool[r.Intn(len(pool))]
-			if used[nn] || strings.Contains(text, nn) {
+			if used[pre+nn] || strings.Contains(text, nn) {
 				nn = ""
 				continue
 			}
@@ -47,9 +51,7 @@ func RenameMetas(c *Change, r *rand.Rand) (*Change, bool) {
 		if nn == "" {
 			nn = fmt.Sprintf("fresh%d", i)
 		}
-		if m.Name[0] == 'T' { // keep the generator's "type filler" convention
-			nn = "T" + nn
-		}
+		nn = pre + nn
 		used[nn] = true
 		mapping[m.Name] = nn
 		d.Meta[i].Name = nn
